@@ -1445,7 +1445,7 @@ def _real_length(rep, ctx):
 # vol * x^T (W* y): the adjoint is inverse / cell_volume -- the *whole* cell
 # volume, whichever axes are transformed -- and the adjoint of the inverse is
 # cell_volume * forward.
-def _wavelet_adjoint(rep, model):
+def _wavelet_adjoint(rep, model, rule='R9'):
     from ..namodel import NA, NAHooks, NAInterp, objarr
     WAV = 'odl/trafos/wavelet.py'
     n = 0
@@ -1503,19 +1503,19 @@ def _wavelet_adjoint(rep, model):
                 want = Rat.const(1) / vol if expect_inv else vol
                 if sc is None or not (to_rat(sc) - want).is_zero():
                     rep.violation(
-                        'R9', cons, 'the adjoint is %r times the %s, the '
+                        rule, cons, 'the adjoint is %r times the %s, the '
                         'inner products of domain (cell volume %r) and '
                         'coefficient space need %r' % (
                             sc, 'inverse' if expect_inv else 'forward '
                             'transform', vol, want), WAV, fn.lineno)
                 else:
-                    rep.holds('R9', cons, 'scaled by %r' % (want,))
+                    rep.holds(rule, cons, 'scaled by %r' % (want,))
             except Undecided as e:
-                rep.undecided('R9', cons, str(e), WAV, fn.lineno)
+                rep.undecided(rule, cons, str(e), WAV, fn.lineno)
             except PyRaise as e:
-                rep.violation('R9', cons, 'raises %s' % e.name, WAV,
+                rep.violation(rule, cons, 'raises %s' % e.name, WAV,
                               fn.lineno)
-    rep.floor('R9', 'wavelet adjoint evaluations', n, 10)
+    rep.floor(rule, 'wavelet adjoint evaluations', n, 10)
 
 
 def _wavelet_crop(rep, model):
